@@ -18,6 +18,8 @@ namespace BS = BitSerializer;
 
 struct Cls { int a = 0; std::string b; template <class A> void Serialize(A& ar) { ar << BS::KeyValue("a", a) << BS::KeyValue("b", b); } };
 struct Row { std::string a; int b = 0; template <class A> void Serialize(A& ar) { ar << BS::KeyValue("a", a) << BS::KeyValue("b", b); } };
+struct RowW { std::u16string k; template <class A> void Serialize(A& ar) { ar << BS::KeyValue("k", k); } };
+struct RowW32 { std::u32string k; template <class A> void Serialize(A& ar) { ar << BS::KeyValue("k", k); } };
 enum class En { One, Two };
 REGISTER_ENUM(En, { {En::One, "One"}, {En::Two, "Two"} })
 
@@ -85,7 +87,7 @@ template <class TChar> static void runConverters(bsx::Ctx& c, const std::string&
 
 static void body(bsx::Ctx& c) {
 	const bool thorough = c.tier == "thorough";
-	int scen = c.choose(7, "scenario");
+	int scen = c.choose(8, "scenario");
 	auto policyOpts = [](int pol) { return lib::opts(pol == 0, pol == 0); };
 	if (scen == 0) {
 		// ---- MsgPack: all words up to length L over the class-complete byte alphabet; the last symbol is looped inside
@@ -227,6 +229,61 @@ static void body(bsx::Ctx& c) {
 			}
 		}
 		if (it == 2 && shift == 10 && mode == 0) c.sample(sigbase + " shift=10: u64 item at offset 250, cut at every byte 250..261");
+	} else if (scen == 7) {
+		// ---- UTF payloads: every byte string of length <= 3 (thorough 4) over a UTF-8 class alphabet (ASCII, tails, over-long and 2/3/4-octet
+		// leads, surrogate lead ED, F4/F5 limits, the retired 5/6-octet leads F8/FC, FE/FF) as the string value of a MsgPack / JSON / CSV / XML
+		// document loaded into char16_t / char32_t / wchar_t / char strings under both UTF error policies, and straight into Convert::To from an
+		// exact-size heap buffer (so that a read of one byte beyond the input is an ASan report); the same for UTF-16 code unit strings over
+		// {A, D7FF, D800, DBFF, DC00, DFFF, E000, FFFF}. The transcoders must stop at the end of the input whatever came before.
+		static const unsigned char u8a[] = {0x41, 0x80, 0xBF, 0xC0, 0xC2, 0xDF, 0xE0, 0xED, 0xEF, 0xF0, 0xF4, 0xF5, 0xF8, 0xFC, 0xFE, 0xFF};
+		static const char16_t u16a[] = {0x41, 0xD7FF, 0xD800, 0xDBFF, 0xDC00, 0xDFFF, 0xE000, 0xFFFF};
+		const int NA = static_cast<int>(sizeof u8a), L = thorough ? 4 : 3;
+		int len = 1 + c.choose(L, "len");
+		std::string prefix; std::u16string prefix16;
+		for (int i = 0; i + 1 < len; ++i) { int k = c.choose(NA, "sym"); prefix.push_back(static_cast<char>(u8a[k])); prefix16.push_back(u16a[k % 8]); }
+		std::string sigbase = "C02/utf_payload";
+		for (int last = 0; last < NA; ++last) {
+			std::string w = prefix; w.push_back(static_cast<char>(u8a[last]));
+			c.describe(sigbase, "payload=" + bsx::hex(w));
+			c.nontrivial(bsx::fnv(w) ^ 0x77);
+			for (int up = 0; up < 2; ++up) {
+				BS::SerializationOptions o = lib::opts(); o.utfEncodingErrorPolicy = up ? BS::Convert::Utf::UtfEncodingErrorPolicy::Skip : BS::Convert::Utf::UtfEncodingErrorPolicy::ThrowError;
+				std::string sfx = up ? "/utf=skip" : "/utf=throw"; std::string info = "payload=" + bsx::hex(w);
+				std::string mp(1, static_cast<char>(0xa0 + w.size())); mp += w;
+				std::string js = "\"" + w + "\"", xm = "<?xml version=\"1.0\"?><root><k>" + w + "</k></root>", cs = "k\r\n" + w + "\r\n";
+				for (int st = 0; st < 2; ++st) {
+					std::string s2 = sfx + (st ? "/stream" : "/mem");
+					c.evals(11);
+					judge(c, sigbase + "/msgpack/target=u16string" + s2, loadAs<tl::MP, std::u16string>(mp, st == 1, o), mp.size(), info);
+					judge(c, sigbase + "/msgpack/target=u32string" + s2, loadAs<tl::MP, std::u32string>(mp, st == 1, o), mp.size(), info);
+					judge(c, sigbase + "/msgpack/target=wstring" + s2, loadAs<tl::MP, std::wstring>(mp, st == 1, o), mp.size(), info);
+					judge(c, sigbase + "/msgpack/target=string" + s2, loadAs<tl::MP, std::string>(mp, st == 1, o), mp.size(), info);
+					judge(c, sigbase + "/msgpack/target=map<u16string,int>" + s2, loadAs<tl::MP, std::map<std::u16string, int>>(std::string("\x81", 1) + mp + "\x01", st == 1, o), mp.size() + 2, info);
+					judge(c, sigbase + "/json/target=u16string" + s2, loadAs<tl::JS, std::u16string>(js, st == 1, o), js.size(), info);
+					judge(c, sigbase + "/json/target=u32string" + s2, loadAs<tl::JS, std::u32string>(js, st == 1, o), js.size(), info);
+					judge(c, sigbase + "/json/target=string" + s2, loadAs<tl::JS, std::string>(js, st == 1, o), js.size(), info);
+					judge(c, sigbase + "/xml/target=u16string" + s2, loadAs<tl::XM, RowW>(xm, st == 1, o), xm.size(), info);
+					judge(c, sigbase + "/xml/target=u32string" + s2, loadAs<tl::XM, RowW32>(xm, st == 1, o), xm.size(), info);
+					judge(c, sigbase + "/csv/target=rows<u16string>" + s2, loadAs<tl::CS, std::vector<RowW>>(cs, st == 1, o), cs.size(), info);
+				}
+			}
+			{	// converters on exact-size heap buffers
+				std::unique_ptr<char[]> hb(new char[w.size()]); std::memcpy(hb.get(), w.data(), w.size()); std::string_view sv8(hb.get(), w.size());
+				std::u16string w16 = prefix16; w16.push_back(u16a[last % 8]);
+				std::unique_ptr<char16_t[]> hb16(new char16_t[w16.size()]); std::memcpy(hb16.get(), w16.data(), w16.size() * 2); std::u16string_view sv16(hb16.get(), w16.size());
+				auto one = [&](const char* tn, auto fn) { c.evals(1); judge(c, sigbase + "/convert/target=" + tn, probe(fn), w.size(), "payload=" + bsx::hex(w)); };
+				one("u16string", [&] { (void)BS::Convert::To<std::u16string>(sv8); }); one("u32string", [&] { (void)BS::Convert::To<std::u32string>(sv8); }); one("wstring", [&] { (void)BS::Convert::To<std::wstring>(sv8); });
+				one("try_u16string", [&] { (void)BS::Convert::TryTo<std::u16string>(sv8); });
+				if (last < 8) { one("string_from_u16", [&] { (void)BS::Convert::To<std::string>(sv16); }); one("u32string_from_u16", [&] { (void)BS::Convert::To<std::u32string>(sv16); }); }
+				for (int up = 0; up < 2; ++up) {
+					auto pol = up ? BS::Convert::Utf::UtfEncodingErrorPolicy::Skip : BS::Convert::Utf::UtfEncodingErrorPolicy::ThrowError;
+					one(up ? "transcode_u16/skip" : "transcode_u16/throw", [&] { std::u16string out; (void)BS::Convert::Utf::Transcode(sv8, out, pol); });
+					one(up ? "transcode_u32/skip" : "transcode_u32/throw", [&] { std::u32string out; (void)BS::Convert::Utf::Transcode(sv8, out, pol); });
+					if (last < 8) one(up ? "transcode_u16_to_u8/skip" : "transcode_u16_to_u8/throw", [&] { std::string out; (void)BS::Convert::Utf::Transcode(sv16, out, pol); });
+				}
+			}
+		}
+		if (len == 2 && prefix == "\xF0") c.sample(sigbase + " payloads f0 xx");
 	} else {
 		// ---- converters: all strings up to length 3 (thorough 4) over the conversion alphabet, three character widths
 		const int NA = static_cast<int>(sizeof kConvAlpha), L = thorough ? 4 : 3;
